@@ -263,6 +263,12 @@ def c09(ctx):
         add('dash-prefixed', '\n'.join(ls))
     for tail in ['- \n', '- DATA x 0\n', '-\n', '- -\n']:
         add('dash-after-signature', '-----BEGIN PGP SIGNED MESSAGE-----\nHash: SHA512\n\nDATA a 0\n-----BEGIN PGP SIGNATURE-----\n\nAAAA\n-----END PGP SIGNATURE-----\n' + tail)
+    # armor-like lines inside the signature block of a signed frame: malformed, never skipped
+    for inner in ['-----BEGIN PGP SIGNED MESSAGE-----', '-----END PGP SIGNATURE----- ', '-----BEGIN PGP SIGNATURE-----', '-----FOO-----',
+                  '-----END PGP SIGNATURE-----\t', '----- -----']:
+        for pre in ('', 'iQEz\n'):
+            add('armor-in-signature', '-----BEGIN PGP SIGNED MESSAGE-----\nHash: SHA512\n\nDATA a 0\n-----BEGIN PGP SIGNATURE-----\n\n' + pre + inner
+                + '\nAAAA\n-----END PGP SIGNATURE-----\n')
     # every escape form over its value range
     for v in range(256):
         add('esc-x', 'DATA a\\x%02X 0\n' % v)
